@@ -239,5 +239,5 @@ def run(ctx):
     quick = ctx.tier == 'quick'
     ctx.exhaustive = True
     ctx.run_cases(pair_cases(), chunk=1)
-    ctx.run_hypothesis('history_cases', 640 if quick else 10000,
+    ctx.run_hypothesis('history_cases', 640 if quick else 40000,
                        max_len=25 if quick else 40)
